@@ -25,7 +25,7 @@ TECHNIQUE = "runtime monitoring: spec-derived structural validator + occupancy l
 
 def gen_cases(tier, seed):
     rnd = random.Random(f"C03-{seed}")
-    n = 48 if tier == "quick" else 500
+    n = 48 if tier == "quick" else 320
     cases = []
     for i in range(n):
         wk = rnd.choice(["mm1", "mm1", "mv1", "chain2", "chain2", "mvchain2", "fanin2", "pshare2"] + (["chain3"] if tier != "quick" else []))
